@@ -659,6 +659,56 @@ theorem decodeTiff_nested (tb : Tables) (F : Bytes) (buffered : Bool) (h : Hdr) 
     exact readIfd_nested tb _ _ r1 r' e cnt (by rw [hkd.exl, hlim]; exact w) hcd (by intro x hx; rw [hkd.reads] at hx; cases hx)
       hkd.tags hkd.pos (by rw [hpo, hkd.exl, hlim]; exact hroot) (by rw [hpo]; exact hrootW) hres
 
+/-- the same for DecodeJPEGIfd (JPEG APP1 payload F, Exif length from the segment) -/
+theorem decodeJPEGIfd_nested (tb : Tables) (F : Bytes) (buffered : Bool) (h : Hdr) (cnt : Nat) (r' : R) (e : Option ErrKind)
+    (W : Tag → Prop) (hsmall : F.length < 2 ^ 32)
+    (w : World F h.exifLength (if buffered then bufioSize else scratchSize) W)
+    (hroot : DirOK F { off := 0, base := 0, order := h.order, typ := h.firstIfdType, idx := 0 } h.firstIfd cnt h.exifLength
+      (if buffered then bufioSize else scratchSize) (extent F))
+    (hrootW : ∀ x, IsEntry F { off := 0, base := 0, order := h.order, typ := h.firstIfdType, idx := 0 } h.firstIfd cnt x → W x)
+    (hres : decodeJPEGIfd tb F buffered h = .ok (r', e)) : Coh F r' ∧ Exact F r' := by
+  unfold Exif.decodeJPEGIfd at hres
+  dsimp only at hres
+  have hc0 : Coh F { rest := F, po := 0, exifLength := h.exifLength, buffered := buffered, ex := { imageType := h.imageType } } :=
+    ⟨by simp, Nat.zero_le _, hsmall⟩
+  have hF := hroot.inFile
+  have hX := hroot.inExif
+  have hde := discard_exact hc0 h.firstIfd (by simp only; omega) (by simp only; omega)
+  have hcd := hc0.discard (h.firstIfd : Int)
+  have hkd := Keep.discard { rest := F, po := 0, exifLength := h.exifLength, buffered := buffered, ex := { imageType := h.imageType } } (h.firstIfd : Int)
+  generalize hdd : Exif.discard { rest := F, po := 0, exifLength := h.exifLength, buffered := buffered, ex := { imageType := h.imageType } } (h.firstIfd : Int) = pr at hres hde hcd hkd
+  obtain ⟨r1, e1⟩ := pr
+  dsimp only at hres hde hcd hkd
+  have hpo : r1.po = h.firstIfd := by rw [hde.2]; simp
+  have hlim : readLimit r1 = (if buffered then bufioSize else scratchSize) := by unfold readLimit; rw [hkd.buffered]
+  obtain ⟨p2, h2, hres⟩ := bind_ok hres
+  obtain ⟨r2, e2⟩ := p2
+  have hn := readIfd_nested tb _ _ r1 r2 e2 cnt (by rw [hkd.exl, hlim]; exact w) hcd (by intro x hx; rw [hkd.reads] at hx; cases hx)
+    hkd.tags hkd.pos (by rw [hpo, hkd.exl, hlim]; exact hroot) (by rw [hpo]; exact hrootW) h2
+  dsimp only at hres
+  split at hres
+  · simp only [Outcome.ok.injEq, Prod.mk.injEq] at hres; rw [← hres.1]; exact hn
+  · simp only [Outcome.ok.injEq, Prod.mk.injEq] at hres; rw [← hres.1]
+    exact ⟨hn.1.discard _, by intro x hx; rw [(Keep.discard r2 _).reads] at hx; exact hn.2 x hx⟩
+
+/-- the same for DecodeIfd (CR3 CMT boxes): the stream starts at the first directory, F is the payload from its Tiff
+header on -/
+theorem decodeIfd_nested (tb : Tables) (F rest : Bytes) (buffered : Bool) (h : Hdr) (cnt : Nat) (r' : R) (e : Option ErrKind)
+    (W : Tag → Prop) (hsmall : F.length < 2 ^ 32) (hrest : rest = F.drop h.firstIfd) (hfi : h.firstIfd ≤ F.length)
+    (w : World F h.exifLength (if buffered then bufioSize else scratchSize) W)
+    (hroot : DirOK F { off := 0, base := 0, order := h.order, typ := h.firstIfdType, idx := 0 } h.firstIfd cnt h.exifLength
+      (if buffered then bufioSize else scratchSize) (extent F))
+    (hrootW : ∀ x, IsEntry F { off := 0, base := 0, order := h.order, typ := h.firstIfdType, idx := 0 } h.firstIfd cnt x → W x)
+    (hres : decodeIfd tb rest buffered h = .ok (r', e)) : Coh F r' ∧ Exact F r' := by
+  unfold Exif.decodeIfd at hres
+  dsimp only at hres
+  have hc0 : Coh F { rest := rest, po := h.firstIfd, exifLength := h.exifLength, buffered := buffered, ex := { imageType := h.imageType } } :=
+    ⟨hrest, hfi, hsmall⟩
+  have hlim : readLimit ({ rest := rest, po := h.firstIfd, exifLength := h.exifLength, buffered := buffered, ex := { imageType := h.imageType } } : R)
+      = (if buffered then bufioSize else scratchSize) := rfl
+  -- the model passes fuelFor rest; any fuel will do
+  exact readIfd_nested tb _ _ _ r' e cnt (by rw [hlim]; exact w) hc0 (by intro x hx; cases hx) rfl rfl (by rw [hlim]; exact hroot) hrootW hres
+
 /-- the capacity condition of `World` for a layout given as a list of at most 83 tags -/
 theorem cap_of_list (F : Bytes) (ws : List Tag) (hlen : ws.length ≤ 83) (W : Tag → Prop) (hW : ∀ x, W x → x ∈ ws)
     (hpos : ∀ x, W x → 0 < extent F x) : ∀ l : List Tag, LayS (extent F) l → (∀ x ∈ l, W x) → l.length ≤ 83 := by
